@@ -119,7 +119,7 @@ class C13(DevProp):
         if cases is not None:
             self.twins = []
         DevProp.run(self, run_, cases=cases, replaying=replaying)
-        if cases is not None or not self.twins:
+        if cases is not None or not getattr(self, "twins", None):
             return
         # a mere view difference (broken correspondence, no failing input) must not pre-empt the twin comparison, which may exhibit the
         # failing history; it is reported only if the twins find nothing either
@@ -175,8 +175,106 @@ class C13(DevProp):
         return results, err
 
 
+class C13A(DevProp):
+    """panic triggered through an action-emulating axis (and through a key while the axis is deflected): histories with axis events,
+    judged on the full machine (float layer + state machine)"""
+    pid = "C13"
+    imports = "Model.AnalogF Model.AnalogSpec Run.AnalogRun"
+    case_type = "acase"
+    # a step at which the model emits a panic burst (>= 129 messages) and the implementation's bytes of that step differ
+    fail_term = ("(fix go (i : nat) (ms os : list ostep) {struct ms} : list nat := match ms, os with "
+                 "| m :: mr, o :: orr => (if (129 <=? length (o_midi m))%nat && negb (msgs_eqb (o_midi m) (o_midi o)) then [i] else []) ++ go (S i) mr orr "
+                 "| _, _ => [] end) 0%nat (fst (amodel_trace k)) (ac_obs k)")
+    mis_term = "afull_mismatch_perm k"
+    nontrivial_term = None
+    stream = True
+    monitor_name = ("C13 monitor, axis histories (every step at which the panic action triggers per the model - through an action-emulating axis or a key - "
+                    "carries exactly the burst on the implementation)")
+    correspondence_name = "C13 view, axis histories (bytes, signals and State() of every step of the full machine)"
+    rule = C13.rule
+
+    def emit(self, case, res):
+        import agen
+        return agen.emit_acase(case, res)
+
+    def nontrivial_py(self, case, res):
+        return any(len(st["midi"]) >= 129 for st in res["steps"])
+
+    def evaluate(self, cases, results, tag):
+        evals = [("FAIL", "enum_fail (fun k => %s) 0 cases" % self.fail_term),
+                 ("MIS", "enum_some (fun k => %s) 0 cases" % self.mis_term),
+                 ("NT", "enum_true (fun k => false) 0 cases")]
+        n = max(3, min(20, math.ceil(len(cases) / 8)))
+        return devrun.eval_shards(cases, results, evals, imports=self.imports, shard=n, emit=self.emit, case_type=self.case_type, tag=tag + "a")
+
+    def gen(self, rng, tier):
+        import agen, copy
+        cases = []
+        PAX, OAX, CCX = agen.ABS_RY, agen.ABS_HAT0X, agen.ABS_X
+        N1, N2, PKEY, MUP, MDN, CHU = 30, 31, 1, 65, 66, 63
+
+        def a(code, val):
+            return {"t": "a", "sub": "", "code": code, "val": val}
+        for cmode in devgen.CMODES:
+            for variant in range(6 if tier == "quick" else 40):
+                neg = variant % 2 == 1
+                m0 = [agen.analog(PAX, "action", act="panic" if not neg else "octave_up", actneg="octave_down" if not neg else "panic", bidi=True),
+                      agen.analog(OAX, "action", act="semitone_up", actneg="semitone_down", bidi=True),
+                      agen.analog(CCX, "cc", cc=20, ccneg=21, bidi=True)]
+                m1 = [agen.analog(PAX, "cc", cc=30), agen.analog(OAX, "cc", cc=31), agen.analog(CCX, "cc", cc=20, ccneg=21, bidi=True)]
+                absl = [{"code": PAX, "min": -32768, "max": 32767}, {"code": OAX, "min": -1, "max": 1}, {"code": CCX, "min": -128, "max": 127}]
+                keys = [{"sub": "", "code": N1, "note": 60, "off": 0}, {"sub": "", "code": N2, "note": 64, "off": 3}]
+                cfg = agen.base_cfg(m0, keys=keys, cmode=cmode, n_maps=2, channel=rng.choice([1, 2, 9, 16]),
+                                    actions=[{"code": PKEY, "action": "panic"}, {"code": MUP, "action": "mapping_up"}, {"code": MDN, "action": "mapping_down"},
+                                             {"code": CHU, "action": "channel_up"}])
+                cfg["mappings"][1]["analog"] = m1
+                s = -1 if neg else 1
+                full, more, half, rest = s * 32767, s * 30000, s * 20000, 0
+                tap = lambda c: [k(c, 1), k(c, 0)]
+                if variant % 3 == 0:
+                    # panic through the axis; the mapping is changed while it is deflected; it returns to rest as a plain controller; back; a
+                    # note is held; the axis is deflected again (to another value): the burst must come again
+                    ev = [k(N1, 1), a(PAX, full)] + tap(MUP) + [a(PAX, rest)] + tap(MDN) + [k(N2, 1), a(PAX, more), a(PAX, rest), k(N1, 0), k(N2, 0),
+                                                                                              a(PAX, half), a(PAX, full), a(PAX, rest)]
+                elif variant % 3 == 1:
+                    # the panic KEY is held while the panic axis is deflected, and the other way round
+                    ev = [k(N1, 1), k(PKEY, 1), a(PAX, full), a(PAX, rest), k(PKEY, 0), a(PAX, more), k(PKEY, 1), k(PKEY, 0), a(PAX, rest), k(N1, 0)] + \
+                        tap(CHU) + [k(N2, 1), a(PAX, full), k(N2, 0), a(PAX, rest)]
+                else:
+                    ev = []
+                    down = set()
+                    for _ in range(rng.randint(20, 50)):
+                        r = rng.random()
+                        if r < 0.3:
+                            ev.append(a(PAX, rng.choice([full, more, half, rest, rest, -full if rng.random() < 0.3 else rest])))
+                        elif r < 0.4:
+                            ev.append(a(OAX, rng.choice([-1, 0, 1])))
+                        elif r < 0.5:
+                            ev.append(a(CCX, rng.randint(-128, 127)))
+                        elif r < 0.6:
+                            ev += tap(rng.choice([MUP, MDN, CHU]))
+                        else:
+                            c = rng.choice([N1, N2, PKEY])
+                            ev.append(k(c, 0 if c in down else 1))
+                            down ^= {c}
+                    ev += [k(c, 0) for c in sorted(down)] + [a(PAX, rest), a(OAX, 0)]
+                cases.append({"cfg": cfg, "abs": absl, "events": ev, "tag": "panic-axis-%d" % (variant % 3)})
+        return cases
+
+
 def run(run_):
     C13().run(run_)
+    if not run_.violations:
+        cov1 = dict(run_.coverage)
+        C13A().run(run_)
+        cov2 = run_.coverage
+        for k_ in ("evaluations", "distinct_nontrivial", "monitor_failures", "view_mismatches", "crashes"):
+            cov2[k_] = cov1.get(k_, 0) + cov2.get(k_, 0)
+        cov2["generator_distribution"] = {"key_histories": cov1.get("generator_distribution"), "axis_histories": cov2.get("generator_distribution")}
+        for k_ in ("twin_pairs_compared", "twin_failures", "self_test_falsified_observations", "self_test_flagged", "samples"):
+            if k_ in cov1:
+                cov2[k_] = cov1[k_]
+        cov2["correspondence_obligations"] = cov1.get("correspondence_obligations", 3) + 2
 
 
 def replay(run_, data):
@@ -191,4 +289,7 @@ def replay(run_, data):
         p.gen = gen
         p.run(run_)
         return
+    case = data["replay"].get("case")
+    if case and case.get("abs"):
+        return C13A().replay(run_, data)
     p.replay(run_, data)
